@@ -11,7 +11,12 @@ SKIP_EXT = ('.vo', '.vok', '.vos', '.glob', '.aux', '.pyc', '.d', '.cache', '.cm
 SKIP_DIR = ('.git', 'coq/run', 'evidence', 'replays', '__pycache__', 'seeded')
 SKIP_FILE = ('coq/Makefile', 'coq/Makefile.conf', 'coq/.Makefile.d', 'MANIFEST.json', 'coq/_CoqProject', 'harness/mk_manifest.py',
              'coq/.lia.cache', 'coq/.nra.cache', 'coq/.nia.cache')
+# base = the newest commit of the builder's copy that also exists in /verif (builders sometimes commit in their copy)
 base = subprocess.check_output(['git', '-C', src, 'rev-parse', 'HEAD'], text=True).strip()
+for sha in subprocess.check_output(['git', '-C', src, 'rev-list', 'HEAD', '-n', '50'], text=True).split():
+    if subprocess.call(['git', '-C', dst, 'cat-file', '-e', sha], stderr=subprocess.DEVNULL) == 0:
+        base = sha
+        break
 copied, conflicts = [], []
 for root, dirs, files in os.walk(src):
     rel = os.path.relpath(root, src)
